@@ -341,6 +341,24 @@ theorem C08_src_minute_grid_downsample (reads : List (Int × Option Rat)) (hs : 
     exact_mod_cast h
   rw [this]
 
+/-- **billing data too**: spreading each bill over the minutes of its period and summing the minutes of a day is `spreadDay`, for
+any chained list of periods (off-cycle periods blanked or not) -/
+theorem C08_src_minute_grid_billing_day (ps : List Period) (hch : Chained ps) (d0 d1 : Int) (hd : d0 ≤ d1) :
+    spreadDayMin ps d0 d1 = spreadDay ps d0 d1 := by
+  have hn : d0 + ((d1 - d0).toNat : Int) = d1 := by omega
+  have hs := daySumMin_eq ps hch (d1 - d0).toNat d0
+  have hc := dayCountMin_eq ps hch (d1 - d0).toNat d0
+  rw [hn] at hs hc
+  unfold spreadDayMin spreadDay dayCountMin daySumMin minutes
+  rw [hs]
+  by_cases hz : dayCovered ps d0 d1 = 0
+  · have : ((minutesFrom d0 (d1 - d0).toNat).filter fun m => (rateAt ps m).isSome).length = 0 := by
+      have := hc; rw [hz] at this; exact_mod_cast this
+    simp [this, hz]
+  · have hne : ((minutesFrom d0 (d1 - d0).toNat).filter fun m => (rateAt ps m).isSome).length ≠ 0 := by
+      intro h0; apply hz; rw [← hc, h0]; rfl
+    simp [hne, hz]
+
 /-- consecutive boundaries of a non-decreasing list are ordered -/
 theorem days_ordered : ∀ (bounds : List Int), bounds.Pairwise (· ≤ ·) → ∀ d ∈ days bounds, d.1 ≤ d.2
   | [], _, d, hd => by simp [days] at hd
